@@ -73,7 +73,7 @@ pub struct WorldStats {
   pub rpc_calls: BTreeMap<String, u64>,
 }
 
-fn derive(tag: &str, n: u64, len: usize) -> Vec<u8> {
+pub(crate) fn derive(tag: &str, n: u64, len: usize) -> Vec<u8> {
   let mut data = tag.as_bytes().to_vec();
   data.extend_from_slice(&n.to_le_bytes());
   sha256::Hash::hash(&data).to_byte_array()[..len].to_vec()
